@@ -38,7 +38,11 @@ use vkit::world::{start_server, Device, ServerProc, SyncResult};
 const C_LARGE: usize = 6000;
 const C_SMALL: usize = 100;
 const SETTLE_QUIET: Duration = Duration::from_millis(600);
-const SETTLE_HORIZON: Duration = Duration::from_secs(10);
+const SETTLE_HORIZON: Duration = Duration::from_secs(60);
+/// After the queue looks settled: how long the blob set of a store may
+/// take to reach the expected set before the oracle is evaluated anyway
+/// (only a run that is about to fail waits this long).
+const CONVERGE_HORIZON: Duration = Duration::from_secs(45);
 
 // ---------------------------------------------------------------------
 // alphabet and reference model
@@ -747,13 +751,32 @@ fn forget_known_leftovers(disk: &mut Disk, expected: &BTreeSet<String>, known: &
     known.extend(now);
 }
 
+/// Poll a blob directory until it holds exactly the expected blobs (known
+/// leftovers ignored) or the horizon passes: transfers are asynchronous and
+/// a loaded machine may start them late.
+async fn await_blobs(dir: &Path, expected: &BTreeSet<String>, known: &BTreeSet<String>) {
+    let start = Instant::now();
+    loop {
+        let disk = walk_blobs(dir);
+        let now: BTreeSet<String> = disk.blobs.iter().filter(|b| expected.contains(*b) || !known.contains(*b)).cloned().collect();
+        if &now == expected || start.elapsed() > CONVERGE_HORIZON {
+            return;
+        }
+        tokio::time::sleep(Duration::from_millis(250)).await;
+    }
+}
+
 async fn check_server(server: &ServerProc, account_id: &AccountId, after: &str, suffix: &str, expected: &BTreeSet<String>, known: &mut BTreeSet<String>, fails: &mut Fails, cnt: &mut Counters) {
     let Some(sa) = server.account(account_id).await else {
         fails.push(format!("transfer:server_has_no_account:after_{}", after), "the account is not on the server".into(), json!({}));
         return;
     };
+    let paths = {
+        let sa = sa.read().await;
+        sa.paths()
+    };
+    await_blobs(&paths.into_files_dir(), expected, known).await;
     let sa = sa.read().await;
-    let paths = sa.paths();
     let mut disk = walk_blobs(&paths.into_files_dir());
     cnt.store_checks += 1;
     cnt.blobs_hashed += disk.blobs.len() as u64;
@@ -819,6 +842,7 @@ async fn run_transfer(sh: &Shared, backend: Backend, path: &[Op], wd: &Path) -> 
             }
             if m.known {
                 let paths = dev2.paths();
+                await_blobs(&paths.into_files_dir(), &expected, &known_dev2).await;
                 let mut disk = walk_blobs(&paths.into_files_dir());
                 out.cnt.store_checks += 1;
                 out.cnt.blobs_hashed += disk.blobs.len() as u64;
@@ -903,6 +927,7 @@ async fn run_transfer_late(sh: &Shared, backend: Backend, path: &[Op], wd: &Path
         }
         if m.known {
             let paths = dev2.paths();
+            await_blobs(&paths.into_files_dir(), &expected, &BTreeSet::new()).await;
             let disk = walk_blobs(&paths.into_files_dir());
             out.cnt.store_checks += 1;
             out.cnt.blobs_hashed += disk.blobs.len() as u64;
